@@ -54,8 +54,10 @@ def pairs(rng):
         if ss is None:
             sl = None
             kind = "nest-fail"
-    yield ("gross_range", kind, "qartod.gross_range_test", {"inp": X, "fail_span": fl, "suspect_span": sl},
-           {"inp": X, "fail_span": fs, "suspect_span": ss})
+    def maybe_rev(sp):
+        return sp if (sp is None or rng.random() < 0.7) else (tuple(sp[::-1]) if rng.random() < 0.5 else list(sp[::-1]))
+    yield ("gross_range", kind, "qartod.gross_range_test", {"inp": X, "fail_span": maybe_rev(fl), "suspect_span": maybe_rev(sl)},
+           {"inp": X, "fail_span": maybe_rev(fs), "suspect_span": maybe_rev(ss)})
     # valid range
     vl = (rng.choice([None, lo]), rng.choice([None, hi]))
     vs = (lo + rng.choice([0, 0.5]) if vl[0] is not None or rng.random() < 0.5 else None,
